@@ -629,3 +629,210 @@ Proof.
   intros HI. eapply refines_readonly; [exact HI | reflexivity |]. cbn [spec_step abs fst]. unfold compare_cstr.
   rewrite compare_data_spec; [|now apply Inv_Wf | lia]. now rewrite firstn_all.
 Qed.
+
+(* ---------------------------------------------------------------------------------------- *)
+(* the white-space loops                                                                     *)
+
+Lemma get_char_R_mid b pre ch post : R b (pre ++ ch :: post) -> get_char b (N.of_nat (length pre)) = Some ch.
+Proof.
+  intros HR. destruct (R_contents _ _ HR) as (Hc & _ & _).
+  rewrite get_char_spec by (apply Inv_Wf; eapply R_Inv; exact HR). rewrite Hc, app_length. cbn [length].
+  replace (N.of_nat (length pre + S (length post)) <=? N.of_nat (length pre))%N with false by (symmetry; apply N.leb_gt; lia).
+  rewrite Nat2N.id, nth_error_app2 by lia. now rewrite Nat.sub_diag.
+Qed.
+
+Lemma get_char_R_end b s pos : R b s -> (N.of_nat (length s) <= pos)%N -> get_char b pos = None.
+Proof. intros HR H. destruct (R_contents _ _ HR) as (_ & _ & Hl). apply get_char_out_of_range. now rewrite Hl. Qed.
+
+Lemma delete_R_mid b pre mid post : R b (pre ++ mid ++ post) -> mid <> [] ->
+  exists b', delete b (N.of_nat (length pre)) (N.of_nat (length mid)) = (b', true) /\ R b' (pre ++ post).
+Proof.
+  intros HR Hm. assert (0 < length mid) by (destruct mid; [congruence | cbn; lia]).
+  destruct (delete_R _ _ (N.of_nat (length pre)) (N.of_nat (length mid)) HR) as (H1 & H2).
+  { right. right. rewrite !app_length. lia. }
+  unfold del in *. rewrite !app_length in *.
+  replace ((N.of_nat (length pre + (length mid + length post)) <=? N.of_nat (length pre))%N || (N.of_nat (length mid) =? 0)%N)
+    with false in * by (symmetry; apply orb_false_intro; [apply N.leb_gt | apply N.eqb_neq]; lia).
+  cbn [fst snd] in *. rewrite !Nat2N.id in H1.
+  exists (fst (delete b (N.of_nat (length pre)) (N.of_nat (length mid)))). split.
+  - destruct (delete _ _ _) as (b', r). cbn in *. congruence.
+  - unfold delete_spec in H1. rewrite firstn_app_l in H1 by reflexivity.
+    rewrite (skipn_app_l2 _ (length mid)) in H1 by reflexivity. now rewrite skipn_app_l in H1 by reflexivity.
+Qed.
+
+Lemma set_char_R_mid b pre ch post c : R b (pre ++ ch :: post) ->
+  exists b', set_char b (N.of_nat (length pre)) c = (b', true) /\ R b' (pre ++ c :: post).
+Proof.
+  intros HR. destruct (set_char_R _ _ (N.of_nat (length pre)) c HR) as (H1 & H2).
+  unfold setc in *. rewrite app_length in *. cbn [length] in *.
+  replace (N.of_nat (length pre + S (length post)) <=? N.of_nat (length pre))%N with false in *
+    by (symmetry; apply N.leb_gt; lia).
+  cbn [fst snd] in *. rewrite Nat2N.id in H1.
+  exists (fst (set_char b (N.of_nat (length pre)) c)). split.
+  - destruct (set_char _ _ _) as (b', r). cbn in *. congruence.
+  - unfold set_spec in H1. rewrite firstn_app_l in H1 by reflexivity.
+    rewrite (skipn_app_l2 _ 1) in H1 by lia. exact H1.
+Qed.
+
+Lemma no_spaces_loop_ok post : forall pre b fuel, R b (pre ++ post) -> length post < fuel ->
+  exists b', no_spaces_loop fuel b (N.of_nat (length pre)) = Some b' /\ R b' (pre ++ no_spaces_spec post).
+Proof.
+  induction post as [|ch r IH]; intros pre b fuel HR Hf; (destruct fuel as [|f]; [cbn in Hf; lia|]);
+    destruct (R_contents _ _ HR) as (_ & _ & Hl); cbn [no_spaces_loop].
+  - rewrite Hl, app_nil_r. rewrite N.ltb_irrefl. exists b. now rewrite app_nil_r in *.
+  - rewrite Hl, app_length. cbn [length].
+    replace (N.of_nat (length pre) <? N.of_nat (length pre + S (length r)))%N with true by (symmetry; apply N.ltb_lt; lia).
+    rewrite (get_char_R_mid b pre ch r HR). cbn [no_spaces_spec filter].
+    destruct (is_cspace ch) eqn:E; cbn [negb].
+    + destruct (delete_R_mid b pre [ch] r HR) as (b' & Hd & HR'); [discriminate|].
+      cbn [length] in Hd. change (N.of_nat 1) with 1%N in Hd. rewrite Hd. cbn [fst]. apply IH; [exact HR' | cbn in Hf; lia].
+    + replace (N.of_nat (length pre) + 1)%N with (N.of_nat (length (pre ++ [ch]))) by (rewrite app_length; cbn; lia).
+      destruct (IH (pre ++ [ch]) b f) as (b' & H1 & H2); [now rewrite <- app_assoc | cbn in Hf; lia|].
+      exists b'. split; [exact H1|]. now rewrite <- app_assoc in H2.
+Qed.
+
+Lemma no_spaces_R b s : R b s ->
+  exists b', no_spaces b = (b', true) /\ R b' (no_spaces_spec s).
+Proof.
+  intros HR. destruct (R_contents _ _ HR) as (_ & Hst & Hl). unfold no_spaces. rewrite Hst.
+  destruct (no_spaces_loop_ok s [] b (S (blen b))) as (b' & H1 & H2); [exact HR | lia|].
+  cbn [length] in H1. change (N.of_nat 0) with 0%N in H1. rewrite H1. now exists b'.
+Qed.
+
+Lemma rtz_loop_ok s : forall b fuel, R b s -> length s < fuel ->
+  exists b', rtz_loop fuel b = Some b' /\ R b' (rtz_spec s).
+Proof.
+  induction s as [|ch pre IH] using rev_ind; intros b fuel HR Hf; (destruct fuel as [|f]; [cbn in Hf; lia|]);
+    destruct (R_contents _ _ HR) as (_ & _ & Hl); cbn [rtz_loop]; rewrite Hl.
+  - cbn. now exists b.
+  - rewrite app_length in *. cbn [length] in *.
+    replace (0 <? length pre + 1) with true by (symmetry; apply Nat.ltb_lt; lia).
+    replace (N.of_nat (length pre + 1) - 1)%N with (N.of_nat (length pre)) by lia.
+    rewrite (get_char_R_mid b pre ch [] HR). unfold rtz_spec. rewrite rev_app_distr. cbn [rev app drop_zeros].
+    destruct (ch =? 0)%N eqn:E.
+    + destruct (delete_R_mid b pre [ch] [] HR) as (b' & Hd & HR'); [discriminate|].
+      cbn [length] in Hd. change (N.of_nat 1) with 1%N in Hd. rewrite Hd. cbn [fst].
+      rewrite app_nil_r in HR'. apply IH; [exact HR' | lia].
+    + exists b. split; [reflexivity|]. cbn [rev]. now rewrite rev_involutive.
+Qed.
+
+Lemma rtz_R b s : R b s -> exists b', remove_trailing_zeros b = (b', Some true) /\ R b' (rtz_spec s).
+Proof.
+  intros HR. destruct (R_contents _ _ HR) as (_ & Hst & Hl). unfold remove_trailing_zeros. rewrite Hst.
+  destruct (rtz_loop_ok s b (S (blen b)) HR) as (b' & H1 & H2); [lia|]. rewrite H1. now exists b'.
+Qed.
+
+(* --- shrink_blanks ----------------------------------------------------------------------- *)
+
+Fixpoint take_blanks (s : list N) : list N :=
+  match s with c :: r => if is_cspace c then c :: take_blanks r else [] | [] => [] end.
+
+Lemma take_drop s : s = take_blanks s ++ drop_blanks s.
+Proof. induction s as [|c r IH]; cbn; [reflexivity|]. destruct (is_cspace c); cbn; [now f_equal | reflexivity]. Qed.
+
+Lemma take_blanks_all s : forallb is_cspace (take_blanks s) = true.
+Proof. induction s as [|c r IH]; cbn; [reflexivity|]. destruct (is_cspace c) eqn:E; cbn; [now rewrite E | reflexivity]. Qed.
+
+Lemma drop_blanks_head s : match drop_blanks s with [] => True | c :: _ => is_cspace c = false end.
+Proof. induction s as [|c r IH]; cbn; [exact I|]. destruct (is_cspace c) eqn:E; [exact IH | exact E]. Qed.
+
+Lemma collapse_true r :
+  collapse_aux true r = match drop_blanks r with [] => [] | c :: r' => c :: collapse_aux false r' end.
+Proof. induction r as [|x r IH]; cbn; [reflexivity|]. destruct (is_cspace x); [exact IH | reflexivity]. Qed.
+
+Lemma scan_blanks_ok blanks : forall pre b fuel rest, R b (pre ++ blanks ++ rest) ->
+  forallb is_cspace blanks = true -> match rest with [] => True | c :: _ => is_cspace c = false end ->
+  length blanks < fuel ->
+  scan_blanks fuel b (N.of_nat (length pre)) = Some (N.of_nat (length pre + length blanks)).
+Proof.
+  induction blanks as [|x bl IH]; intros pre b fuel rest HR Hb Hrest Hf;
+    (destruct fuel as [|f]; [cbn in Hf; lia|]); cbn [scan_blanks].
+  - cbn [app length] in *. rewrite Nat.add_0_r. destruct rest as [|c rest].
+    + rewrite (get_char_R_end b _ _ HR); [reflexivity | rewrite app_nil_r; lia].
+    + rewrite (get_char_R_mid b pre c rest HR). now rewrite Hrest.
+  - cbn [forallb] in Hb. apply andb_true_iff in Hb. destruct Hb as (Hx & Hb).
+    rewrite (get_char_R_mid b pre x (bl ++ rest) HR), Hx.
+    replace (N.of_nat (length pre) + 1)%N with (N.of_nat (length (pre ++ [x]))) by (rewrite app_length; cbn; lia).
+    rewrite (IH (pre ++ [x]) b f rest); [| now rewrite <- app_assoc | exact Hb | exact Hrest | cbn in Hf; lia].
+    f_equal. rewrite app_length. cbn. lia.
+Qed.
+
+Lemma shrink_done fuel : forall b s i e, R b s -> (N.of_nat (length s) <= i)%N -> N.to_nat e - N.to_nat i < fuel ->
+  shrink_loop fuel b i e = Some b.
+Proof.
+  induction fuel as [|f IH]; intros b s i e HR Hi Hf; [lia|]. cbn [shrink_loop].
+  destruct (i <? e)%N eqn:E; [|reflexivity]. apply N.ltb_lt in E.
+  rewrite (get_char_R_end b s i HR Hi). apply (IH b s); [exact HR | lia | lia].
+Qed.
+
+Lemma shrink_loop_ok fuel : forall pre post b e, R b (pre ++ post) ->
+  (N.of_nat (length (pre ++ post)) <= e)%N -> N.to_nat e - length pre < fuel ->
+  exists b', shrink_loop fuel b (N.of_nat (length pre)) e = Some b' /\ R b' (pre ++ collapse_aux false post).
+Proof.
+  induction fuel as [|f IH]; intros pre post b e HR He Hf; [lia|]. cbn [shrink_loop].
+  destruct post as [|ch r].
+  - cbn [collapse_aux]. rewrite app_nil_r in *. exists b. split; [|exact HR].
+    destruct (_ <? _)%N eqn:E; [|reflexivity]. apply N.ltb_lt in E.
+    rewrite (get_char_R_end b pre _ HR) by lia. apply (shrink_done f b pre); [exact HR | lia | lia].
+  - rewrite app_length in He. cbn [length] in He.
+    replace (N.of_nat (length pre) <? e)%N with true by (symmetry; apply N.ltb_lt; lia).
+    rewrite (get_char_R_mid b pre ch r HR). cbn [collapse_aux].
+    destruct (is_cspace ch) eqn:Ech.
+    2:{ replace (N.of_nat (length pre) + 1)%N with (N.of_nat (length (pre ++ [ch]))) by (rewrite app_length; cbn; lia).
+        destruct (IH (pre ++ [ch]) r b e) as (b' & H1 & H2).
+        - now rewrite <- app_assoc.
+        - rewrite <- app_assoc, app_length. cbn [app length]. lia.
+        - rewrite app_length. cbn [length]. lia.
+        - exists b'. split; [exact H1|]. now rewrite <- app_assoc in H2. }
+    (* a blank: it becomes ' ', the blanks after it are deleted, the next character is stepped over *)
+    assert (Hb1 : exists b1, (if (ch =? 32)%N then b else fst (set_char b (N.of_nat (length pre)) 32%N)) = b1 /\
+                  R b1 (pre ++ 32%N :: r)).
+    { destruct (ch =? 32)%N eqn:E32.
+      - apply N.eqb_eq in E32. subst ch. now exists b.
+      - destruct (set_char_R_mid b pre ch r 32%N HR) as (b1 & Hs & HR1). exists b1. now rewrite Hs. }
+    destruct Hb1 as (b1 & -> & HR1).
+    destruct (R_contents _ _ HR1) as (_ & _ & Hl1).
+    assert (HR1' : R b1 ((pre ++ [32%N]) ++ take_blanks r ++ drop_blanks r)).
+    { rewrite <- take_drop, <- app_assoc. exact HR1. }
+    assert (Hlr : length r = length (take_blanks r) + length (drop_blanks r)).
+    { rewrite (take_drop r) at 1. apply app_length. }
+    assert (Hi1 : (N.of_nat (length pre) + 1)%N = N.of_nat (length (pre ++ [32%N]))) by (rewrite app_length; cbn; lia).
+    rewrite Hi1.
+    rewrite (scan_blanks_ok (take_blanks r) (pre ++ [32%N]) b1 (S (blen b1)) (drop_blanks r) HR1'
+               (take_blanks_all r) (drop_blanks_head r)).
+    2:{ rewrite Hl1, app_length. cbn [length]. lia. }
+    assert (Hb2 : exists b2, (if (N.of_nat (length (pre ++ [32%N])) <? N.of_nat (length (pre ++ [32%N]) + length (take_blanks r)))%N
+                              then fst (delete b1 (N.of_nat (length (pre ++ [32%N])))
+                                          (N.of_nat (length (pre ++ [32%N]) + length (take_blanks r)) - N.of_nat (length (pre ++ [32%N])))%N)
+                              else b1) = b2 /\ R b2 ((pre ++ [32%N]) ++ drop_blanks r)).
+    { destruct (take_blanks r) as [|t0 tb] eqn:Etb.
+      - cbn [length]. rewrite Nat.add_0_r, N.ltb_irrefl. exists b1. split; [reflexivity|]. exact HR1'.
+      - rewrite <- Etb in *.
+        assert (0 < length (take_blanks r)) by (rewrite Etb; cbn; lia).
+        replace (_ <? _)%N with true by (symmetry; apply N.ltb_lt; lia).
+        replace (N.of_nat (length (pre ++ [32%N]) + length (take_blanks r)) - N.of_nat (length (pre ++ [32%N])))%N
+          with (N.of_nat (length (take_blanks r))) by lia.
+        destruct (delete_R_mid b1 (pre ++ [32%N]) (take_blanks r) (drop_blanks r) HR1') as (b2 & Hd & HR2);
+          [rewrite Etb; discriminate|].
+        exists b2. now rewrite Hd. }
+    destruct Hb2 as (b2 & -> & HR2).
+    rewrite collapse_true. pose proof (drop_blanks_head r) as Hh.
+    destruct (drop_blanks r) as [|c r''] eqn:Edr.
+    + rewrite app_nil_r in HR2. exists b2. split; [|exact HR2].
+      apply (shrink_done f b2 (pre ++ [32%N])); [exact HR2 | lia | rewrite app_length in *; cbn [length] in *; lia].
+    + replace (N.of_nat (length (pre ++ [32%N])) + 1)%N with (N.of_nat (length (pre ++ [32%N; c])))
+        by (rewrite !app_length; cbn [length]; lia).
+      destruct (IH (pre ++ [32%N; c]) r'' b2 e) as (b' & H1 & H2).
+      * rewrite <- !app_assoc in *. exact HR2.
+      * rewrite <- app_assoc, app_length. cbn [app length] in *. lia.
+      * rewrite app_length. cbn [length]. lia.
+      * exists b'. split; [exact H1|]. now rewrite <- app_assoc in H2.
+Qed.
+
+Lemma shrink_R b s : R b s -> exists b', shrink_blanks b = (b', Some true) /\ R b' (collapse_spec s).
+Proof.
+  intros HR. destruct (R_contents _ _ HR) as (_ & Hst & Hl). unfold shrink_blanks. rewrite Hst.
+  destruct (shrink_loop_ok (S (blen b)) [] s b (N.of_nat (blen b))) as (b' & H1 & H2);
+    [exact HR | cbn [app]; lia | cbn [length]; lia |].
+  cbn [length] in H1. change (N.of_nat 0) with 0%N in H1. rewrite H1. now exists b'.
+Qed.
